@@ -644,3 +644,29 @@ def export_verdict(rendering, env, value, rel=1e-9):
     if value is None or value != value or v != v:
         return "undecided", v
     return ("same" if close(v, value, rel) else "different"), v
+
+
+TOSTRING_LIT = re.compile(r"(?<![\w.])-?\d+\.\d{6}(?![\d.eE])")
+
+
+def export_verdict_derivative(rendering, env, value):
+    """like export_verdict for the rendering of a derivative: the rules export the constants they create
+    through std::to_string (six decimals); a difference that a change of those literals by half a unit of
+    the sixth decimal explains is 'same-to-string' (an observation), anything larger is 'different'"""
+    verdict, v = export_verdict(rendering, env, value, 1e-9)
+    if verdict != "different":
+        return verdict, v
+    tol = 1e-9 * max(abs(v), abs(value))
+    lits = list(TOSTRING_LIT.finditer(rendering))
+    for m in lits:
+        dev = 0.0
+        for d in (5e-7, -5e-7):
+            alt = rendering[:m.start()] + "(%r)" % (float(m.group(0)) + d) + rendering[m.end():]
+            try:
+                dev = max(dev, abs(cxx_eval(alt, env) - v))
+            except CxxError:
+                return "undecided", v
+        tol += 1.5 * dev
+    if lits and abs(v - value) <= tol:
+        return "same-to-string", v
+    return "different", v
